@@ -5,6 +5,7 @@ import DynasmVerif.Drv.A64Imm
 import DynasmVerif.Drv.RvExec
 import DynasmVerif.Drv.X64Mem
 import DynasmVerif.Drv.A64Enc
+import DynasmVerif.Drv.Conc
 
 /-! Line-protocol driver: reads request lines on stdin, answers each with one `= …` line.
 The first line `hdr <stream> …` selects the stream. The harness output (requests interleaved with its own
@@ -17,12 +18,13 @@ structure DState where
   stream : String := ""
   pending : Option String := none
   asm : Asm.Machine := {}
+  conc : Drv.Conc.DState := {}
 
 /-- execute one request with the implementation's answer (or "" when none is available) -/
 def exec (st : DState) (req hint : String) : DState × String :=
   let ws := Util.words req
   match ws with
-  | "hdr" :: s :: _ => ({ st with stream := s, asm := {} }, s!"= hdr {s}")
+  | "hdr" :: s :: _ => ({ st with stream := s, asm := {}, conc := {} }, s!"= hdr {s}")
   | _ =>
     match st.stream with
     | "reloc" => (st, Drv.Reloc.handle ws)
@@ -31,6 +33,10 @@ def exec (st : DState) (req hint : String) : DState × String :=
     | "rvexec" => (st, Drv.RvExec.handle ws)
     | "x64mem" => (st, Drv.X64Mem.handle ws)
     | "a64enc" => (st, Drv.A64Enc.handle ws)
+    | "conc" =>
+      match ws with
+      | ["reset"] => ({ st with conc := {} }, "= ok")
+      | _ => let (c, a) := Drv.Conc.handle st.conc ws; ({ st with conc := c }, a)
     | "asm" =>
       match ws with
       | ["reset"] => ({ st with asm := {} }, "= ok")
